@@ -1973,3 +1973,6 @@ def m_char_class(ex, st, fr, path, args, m):
     if op == "is_ascii_hexdigit":
         return bor2(digit, rng("a", "f"), rng("A", "F"))
     return NotImplemented
+
+
+from . import capnp_model  # noqa: E402,F401  (registers the Cap'n Proto accessor models)
